@@ -75,7 +75,15 @@ def worker(case):
         else:
             text = vw.render(c06.expr_vad(src[1], src[2], src[3], src[4]))
             tag = "expr:%s:%s" % ("+".join(a[0] for a in src[1]) or "empty", src[4])
-        n = c06.parse_text(text)
+        after_rejected = src[0] == "base" and transform == "identity" and wb and not dp
+        if after_rejected:
+            tag += ":after-rejected-sources"
+        try:
+            n = c06.parse_text(text)
+        except Exception as ex:
+            # (C06 shows these sources valid: a rejection here comes from what an earlier read left in the process)
+            return {"key": core.digest(case), "nontrivial": True, "outcome": "source-rejected", "transitions": 1,
+                    "problems": [("reader-rejects-source-text:%s:%s" % (type(ex).__name__, tag), repr(ex)[:300])]}
     tag += ":" + transform
     try:
         if transform in ("uniquify", "flatten"):
@@ -99,6 +107,15 @@ def worker(case):
     except Exception as ex:
         probs.append(("compose-raised:%s:%s" % (type(ex).__name__, tag), repr(ex)[:200]))
         return {"key": key, "nontrivial": True, "outcome": "compose-raised", "problems": probs, "transitions": 1}
+    if kind != "bundled" and after_rejected:
+        # the written text is not the first one the process reads: sources the reader rejects half-way come before it
+        # (cut in the middle of a statement; a multi-bit constant, which is outside the supported subset) - whatever
+        # a rejected read leaves behind must not reach the text read afterwards
+        for bad in (text[: len(text) * 2 // 3], text.replace("1'b0", "2'b00", 1), text[: len(text) // 3] + " \\half"):
+            try:
+                c06.parse_text(bad)
+            except Exception:
+                pass
     try:
         with core.quiet():
             m = s.parse(out)
